@@ -329,6 +329,13 @@ _BUILTINS: dict[str, t.Callable[..., t.Any]] = {
 }
 
 
+_PLAIN = (int, float, str, tuple, list)
+_BINOPS: dict[type, t.Callable[[t.Any, t.Any], t.Any]] = {
+    ast.Add: lambda a, b: a + b, ast.Sub: lambda a, b: a - b, ast.Mult: lambda a, b: a * b if not (isinstance(a, (str, tuple, list)) or isinstance(b, (str, tuple, list))) or (isinstance(a, int) and a < 64) or (isinstance(b, int) and b < 64) else UNK,
+    ast.FloorDiv: lambda a, b: a // b, ast.Mod: lambda a, b: a % b if not isinstance(a, str) else UNK,
+}
+
+
 def _next(items: t.Any, *default: t.Any) -> t.Any:
     """next() over an iterable that the evaluator has materialised as a list."""
     items = list(items)
@@ -351,6 +358,7 @@ class Ev:
         self.lookup = lookup
         self.call_hook = call_hook
         self.node: Node | None = None  # CFG node the expression belongs to (set by FuncEval)
+        self.named: t.Callable[[ast.NamedExpr], t.Any] | None = None  # value of a walrus the scenario fixes (set by FuncEval)
 
     # -- values ------------------------------------------------------------
     def val(self, e: ast.AST | None, env: dict[str, t.Any] | None = None) -> t.Any:
@@ -384,6 +392,15 @@ class Ev:
             if isinstance(e.op, ast.UAdd):
                 return +v
             return UNK
+        if isinstance(e, ast.BinOp):
+            a, b = self.val(e.left, env), self.val(e.right, env)
+            fn = _BINOPS.get(type(e.op))
+            if a is UNK or b is UNK or fn is None or not isinstance(a, _PLAIN) or not isinstance(b, _PLAIN):
+                return UNK
+            try:
+                return fn(a, b)
+            except Exception:
+                return UNK
         if isinstance(e, ast.BoolOp):
             vs = [self.val(x, env) for x in e.values]
             if _known(*vs):
@@ -416,6 +433,10 @@ class Ev:
                 return UNK
             return self.val(e.body if tr else e.orelse, env)
         if isinstance(e, ast.NamedExpr):
+            if self.named is not None:
+                r = self.named(e)
+                if r is not NotImplemented:
+                    return r
             return self.val(e.value, env)
         if isinstance(e, ast.Call):
             if self.call_hook is not None:
@@ -428,6 +449,26 @@ class Ev:
             if not self._comp(e, 0, dict(env), out):
                 return UNK
             return set(out) if isinstance(e, ast.SetComp) else out
+        if isinstance(e, ast.DictComp):
+            pairs: list[t.Any] = []
+            shim = ast.ListComp(elt=ast.Tuple(elts=[e.key, e.value], ctx=ast.Load()), generators=e.generators)
+            if not self._comp(shim, 0, dict(env), pairs):
+                return UNK
+            try:
+                return dict(pairs)
+            except TypeError:
+                return UNK
+        if isinstance(e, ast.Dict):
+            if any(k is None for k in e.keys):
+                return UNK
+            ks = [self.val(k, env) for k in e.keys]
+            vs = [self.val(v, env) for v in e.values]
+            if not _known(*ks, *vs):
+                return UNK
+            try:
+                return dict(zip(ks, vs))
+            except TypeError:
+                return UNK
         return UNK
 
     def _comp(self, e, i: int, env: dict[str, t.Any], out: list[t.Any]) -> bool:
@@ -483,6 +524,9 @@ class Ev:
                     return getattr(recv, f.attr)(*args)
                 if isinstance(recv, (list, tuple)) and f.attr in _SEQ_METHODS:
                     return getattr(recv, f.attr)(*args)
+                if isinstance(recv, dict) and f.attr in ("get", "keys", "values", "items"):
+                    r = getattr(recv, f.attr)(*args)
+                    return r if f.attr == "get" else list(r)
             except (TypeError, ValueError):
                 return UNK
             return UNK
@@ -565,6 +609,10 @@ def _cmp(op: ast.cmpop, a: t.Any, b: t.Any) -> t.Any:
     return UNK
 
 
+def _within(node: ast.AST | None, outer: ast.AST) -> bool:
+    return node is not None and any(x is node for x in ast.walk(outer))
+
+
 def _bind(target: ast.AST, value: t.Any, env: dict[str, t.Any]) -> bool:
     if isinstance(target, ast.Name):
         env[target.id] = value
@@ -619,7 +667,15 @@ class FuncEval:
     def ev_at(self, node: Node) -> Ev:
         ev = Ev(lambda nm: self.lookup_at(node, nm), self._hook)
         ev.node = node
+        if self.pinned:
+            ev.named = self._pinned_walrus
         return ev
+
+    def _pinned_walrus(self, e: ast.NamedExpr) -> t.Any:
+        for d, v in self.pinned.items():
+            if d.kind == "walrus" and d.stmt is e:
+                return v
+        return NotImplemented
 
     def truth_at(self, node: Node) -> t.Any:
         return self.ev_at(node).truth(node.ast)  # type: ignore[arg-type]
@@ -665,6 +721,9 @@ class FuncEval:
             if d.kind in ("assign", "walrus") and d.value is not None and d.node is not None:
                 return self.ev_at(d.node).val(d.value)
             if d.kind == "unpack" and d.value is not None and d.node is not None and d.index is not None:
+                lit = self._literal_elt(d)
+                if lit is not None:
+                    return self.ev_at(d.node).val(lit)  # a, b = x, y: only the element that is bound matters
                 v = self.ev_at(d.node).val(d.value)
                 return self._index(v, d)
             if d.kind == "for" and d.stmt is not None:
@@ -675,6 +734,17 @@ class FuncEval:
             return UNK
         finally:
             self.depth -= 1
+
+    @staticmethod
+    def _literal_elt(d: Def) -> ast.AST | None:
+        """for `a, b = x, y` the right-hand element bound to d's name."""
+        tg = getattr(d.stmt, "targets", None)
+        tgt = tg[0] if tg and len(tg) == 1 else None
+        v = d.value
+        if isinstance(tgt, (ast.Tuple, ast.List)) and isinstance(v, (ast.Tuple, ast.List)) and len(tgt.elts) == len(v.elts) and d.index is not None:
+            if not any(isinstance(x, (ast.Starred, ast.Tuple, ast.List)) for x in tgt.elts) and not any(isinstance(x, ast.Starred) for x in v.elts):
+                return v.elts[d.index]
+        return None
 
     @staticmethod
     def _index(v: t.Any, d: Def) -> t.Any:
@@ -695,24 +765,50 @@ class FuncEval:
             r = self.user_hook(call, ev, env, self)
             if r is not NotImplemented:
                 return r
-        # module-level helper with a single return statement: evaluate its expression in place
+        # one level of helper extraction (nested up to 3 deep): a module-level function of the same module, or a
+        # method of the analysed function's own class that no class of its hierarchy overrides, is evaluated in
+        # place on the known argument values; its result is used when every feasible path returns the same value
         f = call.func
-        if isinstance(f, ast.Name) and f.id not in env and not call.keywords and self.inline_depth < 3:
+        if call.keywords or self.inline_depth >= 3 or any(isinstance(a, ast.Starred) for a in call.args):
+            return NotImplemented
+        helper: FuncInfo | None = None
+        bound: dict[str, t.Any] = {}
+        if isinstance(f, ast.Name) and f.id not in env:
             if ev.node is not None and self.rd.reaching(ev.node, f.id):
                 return NotImplemented  # a local binding shadows the module-level name
             helper = self.fi.module.functions.get(f.id)
-            if helper is not None:
-                body = [s for s in helper.node.body if not (isinstance(s, ast.Expr) and isinstance(s.value, ast.Constant))]
-                if len(body) == 1 and isinstance(body[0], ast.Return) and len(call.args) == len(helper.params):
-                    args = [ev.val(a, env) for a in call.args]
-                    if not _known(*args):
-                        return UNK
-                    sub = FuncEval(self.repo, self.folder, helper, params=dict(zip(helper.params, args)), inline_depth=self.inline_depth + 1)
-                    rn = sub.cfg.node_of(body[0])
-                    if rn is None:
-                        return UNK
-                    return sub.ev_at(rn).val(body[0].value)
-        return NotImplemented
+            names = helper.params if helper is not None else []
+        elif isinstance(f, ast.Attribute) and isinstance(f.value, ast.Name) and f.value.id == "self" and "self" not in env and self.fi.cls is not None:
+            helper = sole_method(self.repo, self.fi.cls, f.attr)
+            if helper is None or not helper.params or "staticmethod" in helper.decorators or "classmethod" in helper.decorators:
+                return NotImplemented
+            names = helper.params[1:]
+        else:
+            return NotImplemented
+        if helper is None or helper is self.fi or len(call.args) != len(names):
+            return NotImplemented
+        hn = helper.node
+        if isinstance(hn, ast.AsyncFunctionDef) or any(isinstance(x, (ast.Yield, ast.YieldFrom)) for x in ast.walk(hn)):
+            return NotImplemented
+        args = [ev.val(a, env) for a in call.args]
+        if not _known(*args):
+            return UNK
+        bound.update(zip(names, args))
+        sub = FuncEval(self.repo, self.folder, helper, params=bound, call_hook=self.user_hook if isinstance(f, ast.Attribute) else None, inline_depth=self.inline_depth + 1)
+        try:
+            res = sub.concrete()
+            if res is not None:
+                return res[1] if res[0] == "return" else UNK
+            rets, raises = sub.outcomes()
+        except AnalysisError:
+            return UNK
+        vals = [v for _, v in rets]
+        if raises or not vals or not _known(*vals):
+            return UNK
+        v0 = vals[0]
+        if any(not (v is v0 or (type(v) is type(v0) and v == v0)) for v in vals[1:]):
+            return UNK
+        return v0
 
     # -- reachability under the scenario -----------------------------------------
     def explore(self, starts: t.Iterable[Node], stop: t.Iterable[int] = (), avoid: t.Iterable[int] = (), definite: bool = False) -> set[int]:
@@ -750,9 +846,160 @@ class FuncEval:
                 stack.append(s)
         return seen
 
-    def outcomes(self) -> tuple[list[tuple[Node, t.Any]], bool]:
-        """([(return node, value or UNK)], may raise) over the paths feasible under the scenario."""
-        seen = self.explore([self.cfg.entry])
+    # -- one concrete run ---------------------------------------------------------------
+    _MUTATORS = {"append": 1, "extend": 1, "add": 1, "insert": 2, "reverse": 0, "setdefault": 2, "update": 1}
+
+    def concrete(self, limit: int = 4000) -> tuple[str, t.Any] | None:
+        """follow the one path the parameter values determine, statement by statement, with an environment of local
+        values (so result variables assigned on several branches, loops that build a list, early exits all work).
+        ("return", value or UNK) / ("raise", None); None when a branch condition, an iterable or an effect cannot be
+        evaluated - the caller then falls back on :meth:`outcomes`."""
+        import copy
+
+        cfg = self.cfg
+        env: dict[str, t.Any] = {k: (copy.deepcopy(v) if isinstance(v, (list, dict, set)) else v) for k, v in self.params.items()}
+        a = self.fn.args  # type: ignore[attr-defined]
+        for x in a.posonlyargs + a.args + a.kwonlyargs:
+            env.setdefault(x.arg, UNK)
+        iters: dict[int, list[t.Any]] = {}
+        n, prev = cfg.entry, None
+
+        def glob(nm: ast.Name) -> t.Any:
+            return self._global(nm.id)
+
+        for _ in range(limit):
+            if n is cfg.exit:
+                return ("return", None)
+            if n is cfg.raise_exit:
+                return ("raise", None)
+            ev = Ev(glob, self._hook)
+            ev.node = n
+            nxt: Node | None = None
+            normal = [(s_, l) for s_, l in n.succs if l != "exc"]
+            if n.kind == "loop":
+                st = n.ast
+                assert isinstance(st, ast.For)
+                fresh = prev is None or not any(_within(prev.ast, b) for b in st.body)
+                if fresh or n.id not in iters:
+                    it = ev.val(st.iter, env)
+                    if it is UNK:
+                        return None
+                    try:
+                        iters[n.id] = list(it)
+                    except TypeError:
+                        return None
+                    if len(iters[n.id]) > 200:
+                        return None
+                if iters[n.id]:
+                    if not _bind(st.target, iters[n.id].pop(0), env):
+                        return None
+                    want = "T"
+                else:
+                    del iters[n.id]
+                    want = "F"
+                c = [s_ for s_, l in normal if l == want]
+                if len(c) != 1:
+                    return None
+                nxt = c[0]
+            elif n.kind == "test":
+                if not self._bind_defs(n, ev, env):
+                    return None
+                tr = ev.truth(n.ast, env)  # type: ignore[arg-type]
+                if tr is UNK:
+                    return None
+                c = [s_ for s_, l in normal if l == ("T" if tr else "F")]
+                if len(c) != 1:
+                    return None
+                nxt = c[0]
+            elif n.kind == "stmt":
+                st = n.ast
+                if any(l == "exc" for _, l in n.succs):
+                    return None  # inside a try: whether the statement raises is not modelled
+                if isinstance(st, ast.Return):
+                    return ("return", ev.val(st.value, env) if st.value is not None else None)
+                if isinstance(st, ast.Raise):
+                    return ("raise", None)
+                if isinstance(st, ast.Assign) and len(st.targets) == 1 and isinstance(st.targets[0], ast.Subscript) and isinstance(st.targets[0].value, ast.Name):
+                    tg = st.targets[0]
+                    obj = env.get(tg.value.id, UNK)  # type: ignore[union-attr]
+                    k, v = ev.val(tg.slice, env), ev.val(st.value, env)
+                    if not isinstance(obj, (list, dict)) or not _known(k, v) or isinstance(tg.slice, ast.Slice):
+                        return None
+                    try:
+                        obj[k] = v
+                    except Exception:
+                        return None
+                elif isinstance(st, (ast.Assign, ast.AnnAssign)):
+                    if not self._bind_defs(n, ev, env):
+                        return None
+                elif isinstance(st, ast.AugAssign):
+                    if not isinstance(st.target, ast.Name):
+                        return None
+                    env[st.target.id] = ev.val(ast.BinOp(left=ast.Name(id=st.target.id, ctx=ast.Load()), op=st.op, right=st.value), env)
+                elif isinstance(st, ast.Expr):
+                    if not self._bind_defs(n, ev, env):
+                        return None
+                    v = st.value
+                    if isinstance(v, ast.Call) and isinstance(v.func, ast.Attribute) and isinstance(v.func.value, ast.Name) and v.func.value.id in env:
+                        obj = env[v.func.value.id]
+                        arity = self._MUTATORS.get(v.func.attr)
+                        args = [ev.val(x, env) for x in v.args]
+                        if isinstance(obj, (list, set, dict)) and arity == len(args) and not v.keywords and _known(*args) and hasattr(obj, v.func.attr):
+                            try:
+                                getattr(obj, v.func.attr)(*args)
+                            except Exception:
+                                return None
+                        elif isinstance(obj, (str, tuple, int, float, bool, type(None))):
+                            pass  # immutable receiver: the call has no effect on the environment
+                        else:
+                            return None  # unknown effect on a local object
+                elif isinstance(st, (ast.Pass, ast.Break, ast.Continue, ast.Assert, ast.Global, ast.Nonlocal)):
+                    pass
+                else:
+                    return None
+                if len(normal) != 1:
+                    return None
+                nxt = normal[0][0]
+            elif n.kind in ("entry", "join"):
+                if len(normal) != 1:
+                    return None
+                nxt = normal[0][0]
+            else:
+                return None
+            prev, n = n, nxt
+        return None
+
+    def _bind_defs(self, n: Node, ev: Ev, env: dict[str, t.Any]) -> bool:
+        """execute the bindings of node n (assignment targets, walrus) on env; False when a target is not a plain name."""
+        new: list[tuple[str, t.Any]] = []
+        st = n.ast
+        if isinstance(st, ast.Assign) and any(not isinstance(x, (ast.Name, ast.Tuple, ast.List)) for x in st.targets):
+            return False  # attribute / subscript store: effect not modelled
+        if isinstance(st, ast.AnnAssign) and not isinstance(st.target, ast.Name):
+            return False
+        cache: dict[int, t.Any] = {}
+        for d in self.rd.gen.get(n.id, []):
+            if d.kind not in ("assign", "walrus", "unpack") or d.value is None:
+                new.append((d.name, UNK))
+                continue
+            lit = self._literal_elt(d) if d.kind == "unpack" else None
+            if lit is not None:
+                new.append((d.name, ev.val(lit, env)))
+                continue
+            if id(d.value) not in cache:
+                cache[id(d.value)] = ev.val(d.value, env)
+            v = cache[id(d.value)]
+            if d.index is not None:
+                v = self._index(v, d)
+            new.append((d.name, v))
+        for k, v in new:
+            env[k] = v
+        return True
+
+    def outcomes(self, starts: t.Iterable[Node] | None = None) -> tuple[list[tuple[Node, t.Any]], bool]:
+        """([(return node, value or UNK)], may raise) over the paths feasible under the scenario (from the entry, or
+        from ``starts``)."""
+        seen = self.explore([self.cfg.entry] if starts is None else list(starts))
         rets = []
         for n in self.cfg.nodes:
             if n.id in seen and isinstance(n.ast, ast.Return) and n.kind == "stmt":
@@ -761,6 +1008,25 @@ class FuncEval:
         if falls_off:
             rets.append((self.cfg.exit, None))
         return rets, self.cfg.raise_exit.id in seen
+
+
+def sole_method(repo: Repo, cls: t.Any, name: str) -> FuncInfo | None:
+    """the method ``self.<name>`` denotes inside a method of ``cls``, when that is the same werkzeug function for
+    ``cls`` and every subclass of it (no override can be dispatched to); None otherwise."""
+    try:
+        _o, w = repo.lookup(cls, name)
+    except AnalysisError:
+        return None
+    if not isinstance(w, FuncInfo):
+        return None
+    for sub in repo.subclasses(cls.fq):
+        try:
+            _o2, w2 = repo.lookup(sub, name)
+        except AnalysisError:
+            return None
+        if w2 is not w:
+            return None
+    return w
 
 
 def self_call(call: ast.Call, name: str) -> bool:
